@@ -5,6 +5,8 @@ exit 1: at least one VIOLATION line
 exit 2: the machinery itself failed (TLC crash, time-out of the tool, harness bug)
 """
 import argparse
+import signal
+import threading
 import importlib
 import os
 import sys
@@ -29,6 +31,31 @@ def main():
         sys.exit(selftest.main())
     pid = a.prop.upper()
     chk = Check(pid, tier, seed, a.replay)
+    # A check that does not finish is itself a result: the code under test (or TLC on its traces) does not
+    # terminate.  Quick checks take 10-160 s on the unchanged tree, thorough ones 3-15 min.
+    limit = int(os.environ.get("VERIF_WALL_LIMIT", "1500" if tier == "quick" else "14400"))
+
+    class WallLimit(BaseException):
+        pass
+
+    def on_alarm(signum, frame):
+        raise WallLimit("".join(traceback.format_stack(frame)[-12:]))
+    # (SIGUSR1 from a timer thread: SIGALRM / setitimer belong to the per-call watchdogs of some drivers)
+    signal.signal(signal.SIGUSR1, on_alarm)
+    timer = threading.Timer(limit, lambda: os.kill(os.getpid(), signal.SIGUSR1))
+    timer.daemon = True
+    timer.start()
+    try:
+        _run(chk, pid, tier, seed)
+    except WallLimit as ex:
+        chk.violation("did not finish within %d s" % limit,
+                      "the %s check did not finish within %d s (unchanged tree: minutes at most): the code under test, "
+                      "or the validation of its traces, does not terminate" % (pid, limit),
+                      dict(stack_at_time_limit=str(ex)))
+        sys.exit(chk.finish())
+
+
+def _run(chk, pid, tier, seed):
     try:
         try:
             import_rig()
